@@ -10,6 +10,8 @@ import (
 	"encoding/json"
 	"fmt"
 	"os"
+	"sort"
+	"strings"
 
 	"github.com/bytom/bytom/protocol/casper"
 
@@ -65,6 +67,12 @@ type posted struct {
 }
 
 func runHist(h []int, _ json.RawMessage) (out xplore.Out) {
+	if len(h) > 0 && h[0] == nestMarker {
+		saved, savedR := W, restartE
+		W, restartE = nestWorld(), -1
+		defer func() { W, restartE = saved, savedR }()
+		return runHist(h[1:], nil)
+	}
 	in, err := W.NewInst()
 	if err != nil {
 		return xplore.Out{Viols: []xplore.Viol{{Key: "infra-newnode", What: err.Error()}}}
@@ -148,7 +156,14 @@ func runHist(h []int, _ json.RawMessage) (out xplore.Out) {
 	for _, m := range f.Votes[0] {
 		nOwn += len(m)
 	}
-	out.Digest = in.Digest()
+	// votes the node has posted are part of the state: a posted vote that is recorded nowhere else must still be
+	// compared with the votes posted later on every path through this state
+	var ownPosted []string
+	for _, p := range byPub[W.Net.Pubs[0].String()] {
+		ownPosted = append(ownPosted, fmt.Sprintf("%d>%d", p.s, p.t))
+	}
+	sort.Strings(ownPosted)
+	out.Digest = in.Digest() + "|posted:" + strings.Join(ownPosted, ",")
 	out.Outcome = fmt.Sprintf("own-votes-recorded=%d", nOwn)
 	used := map[int]bool{}
 	for _, e := range h {
@@ -192,13 +207,19 @@ func main() {
 		}
 	}
 	W = world(thorough)
-	spec := &xplore.Spec{Name: "c18", Run: runHist, Recycle: 300, Describe: func(h []int) interface{} { return W.Describe(h) }}
+	spec := &xplore.Spec{Name: "c18", Run: runHist, Recycle: 300, Describe: func(h []int) interface{} {
+		if len(h) > 0 && h[0] == nestMarker {
+			return append([]string{"world:own-vote-nesting"}, nestWorld().Describe(h[1:])...)
+		}
+		return W.Describe(h)
+	}}
 	if par.IsWorker() {
 		xplore.Worker(spec)
 	}
 	run := ev.Start("C18", "model_checking")
 	spec.MaxDepth = len(W.Events) + 1
 	st := xplore.BFS(run, spec)
+	nest(run, spec, thorough)
 	run.Set("states", st.States)
 	run.Set("transitions", st.Transitions)
 	run.Set("traces_validated_against_impl", st.Checks)
